@@ -29,6 +29,7 @@ func main() {
 	quiesce := flag.Bool("quiesce", false, "after each behaviour deliver all commits to all nodes and compare them")
 	only := flag.Int("only", -1, "replay only this behaviour index")
 	deep := flag.String("deep", "", "deep-history scenarios a:b,a:b (numbers of updates on two nodes) run before the behaviours")
+	deepOnly := flag.Bool("deeponly", false, "run only the deep-history scenarios")
 	subEvery := flag.Int("sub", 0, "every k-th behaviour runs with a slow GraphQL subscriber on every node")
 	flag.Parse()
 	split := func(s string) []string {
@@ -68,6 +69,9 @@ func main() {
 		if _, err := fmt.Sscanf(ab, "%d:%d", &a, &b); err == nil {
 			d.DeepScenario(100000+i, a, b)
 		}
+	}
+	if *deepOnly {
+		all = nil
 	}
 	start := time.Now()
 	done := 0
